@@ -9,6 +9,7 @@ import (
 	"github.com/tendermint/tendermint/libs/log"
 	dbm "github.com/tendermint/tm-db"
 
+	stypes "github.com/pokt-network/posmint/store/types"
 	sdk "github.com/pokt-network/posmint/types"
 	zz "github.com/pokt-network/posmint/zzverif"
 )
@@ -170,4 +171,31 @@ func vReadOnlyCalls(p string) {
 	qa := a.app.Query(abci.RequestQuery{Path: "/store/data/key", Data: []byte("a"), Height: 2})
 	zz.Assert(p+".committed-value-is-the-delivered-one", bytes.Equal(qa.Value, []byte("3")))
 	zz.Reach(p + ".end")
+}
+
+// VerifC12_AppLoadVersion: an application rebuilt over the same database and opened at an earlier committed height
+// (BaseApp.LoadVersion: rollback, export at height) reports that height and its app hash and serves its content;
+// opened at the latest height it reports the latest.
+func VerifC12_AppLoadVersion() {
+	db := dbm.NewMemDB()
+	a := vOpenApp(db)
+	a.app.cms.SetPruning(stypes.PruneNothing) // every height is retained
+	a.app.InitChain(abci.RequestInitChain{ChainId: "c"})
+	txs := [][][]byte{{[]byte("a=1")}, {[]byte("a=2"), []byte("b=1")}, {[]byte("a=3")}}
+	var hashes [4][]byte
+	for h := int64(1); h <= 3; h++ {
+		hashes[h] = a.block(h, txs[h-1])
+	}
+	target := int64(1 + zz.Choice("target", 3))
+	v := &vRealApp{main: sdk.NewKVStoreKey("main"), data: sdk.NewKVStoreKey("data")}
+	app := NewBaseApp("verif", log.NewNopLogger(), db, nil)
+	app.cms.SetPruning(stypes.PruneNothing)
+	app.MountStores(v.main, v.data)
+	err := app.LoadVersion(target, v.main)
+	zz.Assert("C12.app.loads-a-committed-height", err == nil)
+	info := app.Info(abci.RequestInfo{})
+	zz.Assert("C12.app.reports-the-loaded-height-and-hash", info.LastBlockHeight == target && bytes.Equal(info.LastBlockAppHash, hashes[target]))
+	got := app.cms.GetKVStore(v.data).Get([]byte("a"))
+	zz.Assert("C12.app.serves-the-content-of-that-height", bytes.Equal(got, []byte{byte('0' + target)}))
+	zz.Reach("C12.app.loadversion.end")
 }
